@@ -48,3 +48,78 @@ def slice_jagged_none_on_option(case, why):
     if not any(it["k"] == "jagged" and any(99999 in sub for sub in it["js"]) for it in its):
         return False
     return why.startswith("tojson raised") or why.startswith("result fails validity") or why.startswith("value differs")
+
+
+def _negaxis(case):
+    depth = case.get("fromty", "").count(" * ") + 1
+    ax = case["args"]["axis"]
+    return depth - ax if ax >= 0 else -ax
+
+
+def _option_above_list(L, under_option=False):
+    if not isinstance(L, dict):
+        return False
+    c = L.get("c")
+    if under_option and c in ("ListOffset", "List", "Regular"):
+        return True
+    uo = under_option or c in ("IndexedOption", "ByteMasked", "BitMasked", "Unmasked")
+    if "x" in L and _option_above_list(L["x"], uo):
+        return True
+    return any(_option_above_list(x, uo) for x in L.get("xs", []))
+
+
+def _regular_under_var(L, under_var=False):
+    if not isinstance(L, dict):
+        return False
+    c = L.get("c")
+    if under_var and c == "Regular":
+        return True
+    uv = under_var or c in ("ListOffset", "List")
+    if "x" in L and _regular_under_var(L["x"], uv):
+        return True
+    return any(_regular_under_var(x, uv) for x in L.get("xs", []))
+
+
+def reduce_nonlocal_two_levels_up(case, why):
+    """F07: a non-innermost reduce of an array with three or more list levels mis-assigns groups when inner lists
+    are empty (sum([[[]],[[2,1]]],axis=1) gives [[2,1],[]]; sum([[],[[],[0,2]]],axis=0) gives [[0,2],[]])."""
+    return (case.get("act") == "reduce" and _negaxis(case) >= 2 and case.get("fromty", "").count(" * ") >= 2
+            and why.startswith("value differs"))
+
+
+def reduce_argpos_missing_rows(case, why):
+    """F08: argmin/argmax along a non-innermost axis of an option-of-lists array does not count the missing rows
+    (argmin([None,[1]],axis=0) gives [0], not [1])."""
+    return (case.get("act") == "reduce" and case["args"]["reducer"] in ("argmin", "argmax") and _negaxis(case) >= 2
+            and _option_above_list(case.get("from")) and why.startswith("value differs"))
+
+
+def reduce_regular_inner_refused(case, why):
+    """F09: non-innermost reduce of a variable-length list of regular lists raises
+    'cannot convert to RegularArray because subarray lengths are not regular'."""
+    return (case.get("act") == "reduce" and _negaxis(case) >= 2 and _regular_under_var(case.get("from"))
+            and "cannot convert to RegularArray" in why)
+
+
+def reduce_empty_outer_sigfpe(case, why):
+    """F10: SIGFPE (division by zero in awkward_ListOffsetArray_reduce_nonlocal_outstartsstops_64) when reducing a
+    zero-length array of lists of lists along a non-innermost axis."""
+    return (case.get("act") == "reduce" and why.startswith("CRASH") and "rc=-8" in why and case.get("len") == 0
+            and _negaxis(case) >= 2 and case.get("fromty", "").count(" * ") >= 2)
+
+
+def _has_class(L, cls):
+    if not isinstance(L, dict):
+        return False
+    if L.get("c") == cls:
+        return True
+    if "x" in L and _has_class(L["x"], cls):
+        return True
+    return any(_has_class(x, cls) for x in L.get("xs", []))
+
+
+def reduce_argpos_indexed_content(case, why):
+    """F11: argmin/argmax along a non-innermost axis lose the position shift when the lists' content is a
+    (non-option) IndexedArray: argmax([[],[1]], axis=0) with IndexedArray leaves gives [0], not [1]."""
+    return (case.get("act") == "reduce" and case["args"]["reducer"] in ("argmin", "argmax") and _negaxis(case) >= 2
+            and _has_class(case.get("from"), "Indexed") and why.startswith("value differs"))
